@@ -20,7 +20,7 @@ def run_config(ctx, config):
             if fn == "eq":
                 spec = lambda val, same=same, eqA=eqA: ("val", ("bool", val(same) and val(eqA)))
                 # eq returns a boolean term: compare as Boolean function over the atoms
-                outs, body, _ = G.summarize(U, G.QTY + "eq", set())
+                outs, body, _ = G.summarize(U, G.QTY + "eq", G.INL_CONV)
                 atoms = T.guard_atoms(outs, [same, eqA])
                 for (g, k, t) in outs:
                     T.bool_atoms(t, atoms) if k == "val" else None
@@ -45,7 +45,7 @@ def run_config(ctx, config):
             else:
                 op = "+" if fn == "add" else "-"
                 spec = lambda val, same=same, B=B, op=op: ("val", S.new((op, A, B), ua)) if val(same) else ("panic", None)
-            G.check_spec(ctx, fn, config, U, G.QTY + fn, set(), [same], spec)
+            G.check_spec(ctx, fn, config, U, G.QTY + fn, G.INL_CONV, [same], spec)
     amt = ws.amount_type(config)
     n_noref = n_single = 0
     G.unit_identity(ctx, config, w)
